@@ -11,7 +11,8 @@
 EXTENDS Transfer, Json
 
 CONSTANTS Params,   \* set of parameter records: one initial state each
-          MaxBase   \* receiver / long files: explore while base <= MaxBase
+          MaxBase,  \* receiver / long files: explore while base <= MaxBase
+          MaxHist   \* generate scripts of at most this many inputs
 
 VARIABLES hist,     \* sequence of inputs so far (script)
           lastin    \* the last input (for action properties)
@@ -59,7 +60,7 @@ ReceiverInput ==
 
 Input ==
   /\ pc \in {"check", "run"} /\ AtRecv
-  /\ base <= MaxBase
+  /\ base <= MaxBase /\ Len(hist) < MaxHist
   /\ IF Sending THEN SenderInput ELSE ReceiverInput
   /\ hist' = Append(hist, lastin')
 
